@@ -159,6 +159,10 @@ Layout(b) ==
     [] b = "sgpd-seig" -> L("sgpd", TRUE, {1}, {}, <<Const("grouping_type", <<115, 101, 105, 103>>), Const("default_length", <<0, 0, 0, 20>>), Cnt("entry_count", 4),
                         Rep(<<Res(Zeros(1)), U("crypt_skip_byte_block", 1), Const("isProtected", <<1>>), Const("Per_Sample_IV_Size", <<8>>), Fix("KID", 16)>>)>>)
     [] b = "sgpd-rap" -> L("sgpd", TRUE, {1}, {}, <<Const("grouping_type", <<114, 97, 112, 32>>), Const("default_length", <<0, 0, 0, 1>>), Cnt("entry_count", 4), Rep(<<U("num_leading_samples_known_and_num", 1)>>)>>)
+    \* "-odd" shapes: not allowed by the standard, but the property binds them all the same - what a decoder ACCEPTS it must reproduce.
+    \* description length larger than the fixed size of the entries of a known grouping type
+    [] b = "sgpd-rap-odd" -> L("sgpd", TRUE, {1}, {}, <<Const("grouping_type", <<114, 97, 112, 32>>), Const("default_length", <<0, 0, 0, 2>>), Cnt("entry_count", 4), Rep(<<U("entry_of_2_bytes", 2)>>)>>)
+    [] b = "sgpd-roll-odd" -> L("sgpd", TRUE, {1}, {}, <<Const("grouping_type", <<114, 111, 108, 108>>), Const("default_length", <<0, 0, 0, 3>>), Cnt("entry_count", 4), Rep(<<U("entry_of_3_bytes", 3)>>)>>)
     [] b = "sgpd-v2" -> L("sgpd", TRUE, {2}, {}, <<Const("grouping_type", <<114, 111, 108, 108>>), U("default_group_description_index", 4), Cnt("entry_count", 4), Rep(<<U("roll_distance", 2)>>)>>)
     [] b = "sgpd-unknown" -> L("sgpd", TRUE, {1}, {}, <<Const("grouping_type", <<113, 113, 113, 113>>), Const("default_length", <<0, 0, 0, 3>>), Cnt("entry_count", 4), Rep(<<U("opaque", 3)>>)>>)
     [] b = "senc" -> L("senc", TRUE, {0}, {2}, <<Cnt("sample_count", 4), Rep(<<Fix("InitializationVector", 8), If(Flag(2), <<Const("subsample_count", <<0, 1>>), U("BytesOfClearData", 2), U("BytesOfProtectedData", 4)>>)>>)>>)
